@@ -290,6 +290,69 @@ def holds(conds, fragment, value=True):
     return L.cond_holds(conds, fragment, value, contains=True)
 
 
+def _dict_vs_in_place(repo, rep):
+    """'later sources override earlier ones': an attribute dictionary must
+    not emit a name that a *later* statement sets.  The dictionary node
+    excludes the names that follow it in the merged list (names[i:]) -- but
+    prepare_attributes puts a named statement that targets an existing
+    static attribute at the static attribute's position, which may be
+    *before* the dictionary.  Position in the merged list is then not
+    statement order, and the later statement is neither excluded by the
+    dictionary nor able to override it."""
+    pa = repo.func("chameleon.tal.prepare_attributes")
+    in_place = any(isinstance(n, ast.Assign) and
+                   src(n.value).endswith(".__setitem__")
+                   for n in ast.walk(pa.node))
+    f = repo.func(PROG + "_create_attributes_nodes")
+    v = L.emission(repo, f.qualname).value
+    positional = False
+    for w in A.walk(v):
+        if isinstance(w, A.NodeV) and w.kind == "DictAttributes":
+            ex = w.arg("exclude", ("expression", "char_escape", "quote",
+                                   "exclude", "bool_names"))
+            if any(isinstance(x, A.CallV) and x.name == "getitem" and
+                   len(x.args) == 2 and isinstance(x.args[1], A.Sym) and
+                   x.args[1].text.replace(" ", "") == "i:"
+                   for x in A.walk(ex)):
+                positional = True
+    rep.check(not (in_place and positional), "R07.6", f.qualname,
+              "what a dictionary entry excludes is every name set by a later "
+              "statement -- also one that was merged into an earlier "
+              "(static) position", construct="dict-exclude-misses-in-place",
+              where=L.where(f), detail="exclusion by position in the merged "
+              "list (names[i:]) while prepare_attributes replaces static "
+              "attributes in place")
+
+
+def _split_on_written_text(repo, rep):
+    """';' separates the entries of tal:attributes unless it ends a character
+    entity -- a rule about the text *as written*.  visit_element decodes the
+    entities of every tal:/metal: attribute value first; a literal
+    ampersand written &amp; then looks like the start of an entity and the
+    next ';' is taken for its end."""
+    ve = repo.func(PROG + "visit_element")
+    dec = [n for n in ast.walk(ve.node) if isinstance(n, ast.Assign)
+           and "decode_htmlentities(" in src(n.value)
+           and src(n.targets[0]).startswith("ns[")]
+    parse = [n for n in ast.walk(ve.node) if isinstance(n, ast.Call)
+             and src(n.func).endswith("parse_attributes")]
+    sp = repo.func("chameleon.tal.split_parts")
+    protects = any(isinstance(n, ast.Name) and n.id == "ENTITY_RE"
+                   for n in ast.walk(sp.node))
+    if not parse:
+        raise AnalysisError("visit_element: parse_attributes call vanished")
+    early = [d for d in dec if d.lineno < min(p.lineno for p in parse)]
+    rep.check(not (early and protects), "R07.6", ve.qualname,
+              "the entries of tal:attributes are split on the text as "
+              "written (entity protection of ';' and entity decoding do not "
+              "both happen before the split)",
+              construct="split-after-decode", where=L.where(
+                  ve, early[0].lineno if early else None),
+              detail="%s runs before tal.parse_attributes, and split_parts "
+                     "protects ';' after '&name'" % (
+                         src(early[0])[:60] if early else ""))
+
+
 def _delimited(repo, rep):
     """A computed value is written as name="value": the quote is never the
     empty quote of an unquoted static value (shared with C02), and a static
@@ -318,6 +381,8 @@ def _delimited(repo, rep):
 
 def _choice(repo, rep):
     _delimited(repo, rep)
+    _dict_vs_in_place(repo, rep)
+    _split_on_written_text(repo, rep)
     f = repo.func(PROG + "_create_attributes_nodes")
     res = L.emission(repo, f.qualname)
     site = f.qualname
